@@ -21,6 +21,8 @@ for d in sorted(glob.glob(os.path.join(HERE, "seeded", "C*-*"))):
         history += "; " + m["rebased"]
     if m.get("retired"):
         verdict = "retired (no longer a defect): " + m["retired"]
+    elif m.get("not_judged"):
+        verdict = "not judged: " + m["not_judged"]
     else:
         verdict = ("caught: " if chk.get("caught") else "**MISSED** ") + keys
     rows.append("| %s (%s) | %s | %s | %s |" % (os.path.basename(d), ", ".join(files), summary, verdict.replace("|", "/"), history.replace("|", "/")))
